@@ -90,6 +90,16 @@ def run(run):
                         dict(d0, api=f"get_path(order={oname})"))
                     add({"kind": "emit_ssa", "N": n, "ch": ch0(t1), "path": [list(s) for s in t1.get_ssa_path(order=o)]},
                         dict(d0, api=f"get_ssa_path(order={oname})"))
+                # the surface-order emitters and the old aliases of all four emitters
+                import warnings as _w
+                with _w.catch_warnings():
+                    _w.simplefilter("ignore")
+                    for nm_, kind_, fn_ in (("get_path_surface", "emit_lin", t1.get_path_surface),
+                                            ("get_ssa_path_surface", "emit_ssa", t1.get_ssa_path_surface),
+                                            ("path (alias)", "emit_lin", t1.path), ("ssa_path (alias)", "emit_ssa", t1.ssa_path),
+                                            ("path_surface (alias)", "emit_lin", t1.path_surface),
+                                            ("ssa_path_surface (alias)", "emit_ssa", t1.ssa_path_surface)):
+                        add({"kind": kind_, "N": n, "ch": ch0(t1), "path": [list(s_) for s_ in fn_()]}, dict(d0, api=nm_))
                 np_path = t1.get_numpy_path()
                 add({"kind": "emit_lin", "N": n, "ch": ch0(t1), "path": [list(s) for s in np_path[1:]]},
                     dict(d0, api="get_numpy_path"))
